@@ -1,11 +1,13 @@
 """C08 Authentication tag is RFC 2104 HMAC over IVs+ciphertext, stored at offset 10."""
 from .common import combined
 LEVEL = 'other'
-RULES = ('R08.a', 'R08.b', 'R06.a', 'S-CMP', 'R05.e', 'R02.b', 'R05.d', 'R13.d', 'R07.e', 'R07.d', 'R07.g', 'R07.t', 'R06.c', 'R08.r')
+RULES = ('R08.a', 'R08.b', 'R06.a', 'S-CMP', 'R05.e', 'R02.b', 'R05.d', 'R13.d', 'R07.e', 'R07.d', 'R07.g', 'R07.t', 'R06.c', 'R08.r', 'R08.f', 'R01.u')
 
 
 def run(prog, rec, tier):
-    combined(prog, rec, tier, RULES, driver=('layout', 'reader'), hmac=('scmp', 'structure'), hash=('drivers', 'buffer', 'buffer_sim', 'finaliser'), compress=True,
+    from . import static_rules as _sr
+    _sr.unsequenced(prog, rec, 'R01.u', 'R01.u@kernel::evaluation-order', ('kernel', 'main.cpp', 'valget'))
+    combined(prog, rec, tier, RULES, driver=('layout', 'reader'), hmac=('scmp', 'structure'), hash=('drivers', 'buffer', 'buffer_sim', 'finaliser', 'factory'), compress=True,
              explanation='Content of the inner and outer hash inputs of the tag computation (K0^ipad || stream from current position to '
              'EOF; K0^opad || inner digest, length B+L) for the three hash modes, with named key bytes; tag written at 10 after hashing '
              'the output from 48; verify reads the stored tag at 10 and hashes the input from 48; tag area zero-filled; compare complete. '
